@@ -1,6 +1,7 @@
 package main
 
 import (
+	"go/ast"
 	"sort"
 	"fmt"
 	"os"
@@ -136,6 +137,20 @@ func (ft *funcTrans) call(in ssa.CallInstruction, val *ssa.Call) {
 		for k, cr := range ft.c.CallReqs {
 			if strings.Contains(name, cr.Callee) {
 				ec := ft.localCtx(st)
+				// the actual arguments of this call: arg0.. (arg0 is the receiver of a method call)
+				{
+					k := 0
+					if com.IsInvoke() {
+						ec.env["arg0"] = ft.termOf(com.Value)
+						k = 1
+					}
+					for _, a := range com.Args {
+						if v := ft.valOf(a); v.L == nil && v.Tup == nil && v.Bad == "" {
+							ec.env[fmt.Sprintf("arg%d", k)] = v.T
+						}
+						k++
+					}
+				}
 				t := ec.evalBool(cr.C.E)
 				o := ft.obligation("callreq", fmt.Sprintf("call%d.%s.callreq%d", ft.nCalls, shortName(name), k+1), cr.C.Src, t.S)
 				o.Where = posStr(ft.p.SSA.Fset, in.Pos())
@@ -765,6 +780,49 @@ func (ft *funcTrans) ret(x *ssa.Return) {
 		o := ft.obligation("ensures", fmt.Sprintf("ensures%d@b%d", i+1, ft.cur.Index), e.Src, t.S)
 		o.Where = where
 	}
+	if len(ft.c.RetReqs) > 0 {
+		lc := ft.localCtx(st)
+		for k, v := range env {
+			if strings.HasPrefix(k, "result") {
+				lc.env[k] = v
+			}
+		}
+		for i, e := range ft.c.RetReqs {
+			var t Term
+			skipped := false
+			func() {
+				defer func() {
+					if r := recover(); r != nil {
+						if ue, ok := r.(unsupportedErr); ok {
+							// a variable of the clause is not declared (or another one has its name) at this
+							// return: nothing to require here; the clause must be applicable at some return
+							if ft.retreqErr == nil {
+								ft.retreqErr = map[int]string{}
+							}
+							ft.retreqErr[i] = string(ue)
+							if os.Getenv("GOVC_DEBUG") != "" {
+								fmt.Fprintf(os.Stderr, "DEBUG: retreq%d skipped at %s: %s\n", i+1, where, string(ue))
+							}
+							ft.notes = append(ft.notes, fmt.Sprintf("retreq%d not applicable at the return at %s (%s)", i+1, where, string(ue)))
+							skipped = true
+							return
+						}
+						panic(r)
+					}
+				}()
+				t = lc.evalBool(e.E)
+			}()
+			if skipped {
+				continue
+			}
+			if ft.retreqOK == nil {
+				ft.retreqOK = map[int]int{}
+			}
+			ft.retreqOK[i]++
+			o := ft.obligation("retreq", fmt.Sprintf("retreq%d@b%d", i+1, ft.cur.Index), e.Src, t.S)
+			o.Where = where
+		}
+	}
 	if ft.c.HasAssigns {
 		ft.frame(st, where)
 	}
@@ -941,5 +999,56 @@ func (ft *funcTrans) typeLevelField(ec *evalCtx, x *EField) (string, bool) {
 // definitions, like in loop invariants).
 func (ft *funcTrans) localCtx(st *State) *evalCtx {
 	env := ft.namesAt(ft.cur)
-	return &evalCtx{w: ft.w, pkg: ft.pkgTypes(), env: env, st: st, old: ft.entry, lets: ft.lets(), cells: ft.envCells, ft: ft}
+	cells := ft.localCells(ft.cur)
+	for name := range cells {
+		if _, captured := ft.envCells[name]; !captured {
+			delete(env, name) // an address-taken local shadows an earlier variable of the same name
+		}
+	}
+	for name, l := range cells {
+		if (l.Kind == LCell || l.Kind == LObj) && len(l.Path) == 0 {
+			if _, ok := env["&"+name]; !ok {
+				env["&"+name] = Term{l.Base, &Sort{Name: "Int", Kind: KRef}}
+			}
+		}
+	}
+	return &evalCtx{w: ft.w, pkg: ft.pkgTypes(), env: env, st: st, old: ft.entry, lets: ft.lets(), cells: cells, ft: ft}
+}
+
+// localCells: captured variables plus address-taken local variables (x whose &x is used) declared
+// in blocks dominating b (or in b): the name denotes the variable's content in the state at hand.
+func (ft *funcTrans) localCells(b *ssa.BasicBlock) map[string]*Loc {
+	cells := map[string]*Loc{}
+	for k, v := range ft.envCells {
+		cells[k] = v
+	}
+	for _, blk := range ft.fn.Blocks {
+		if blk != b && !blk.Dominates(b) {
+			continue
+		}
+		for _, in := range blk.Instrs {
+			dr, ok := in.(*ssa.DebugRef)
+			if !ok || !dr.IsAddr {
+				continue
+			}
+			id, ok := dr.Expr.(*ast.Ident)
+			if !ok {
+				continue
+			}
+			al, ok := dr.X.(*ssa.Alloc)
+			if !ok {
+				continue
+			}
+			v, ok := ft.vals[al]
+			if !ok {
+				continue
+			}
+			if v.L != nil {
+				cells[id.Name] = v.L
+			} else if v.Bad == "" && v.Tup == nil {
+				cells[id.Name] = ft.locOfRef(v.T.S, al.Type().(*types.Pointer).Elem())
+			}
+		}
+	}
+	return cells
 }
